@@ -520,6 +520,11 @@ func run(args []string) error {
 			nops = len(fixed[si])
 		}
 		var genNames []string
+		// for the description of a failing history only (the cases file is the judge):
+		// the first step at which the decidable property looks false
+		suspect := ""
+		unl := map[string]bool{}
+		prevMem, prevRel := "[]", "[]"
 		for k := 0; k < nops; k++ {
 			var op Op
 			if si < len(fixed) {
@@ -572,6 +577,54 @@ func run(args []string) error {
 				relText = viewText(v)
 			}
 			os.RemoveAll(cp)
+			if suspect == "" {
+				inMemBefore := strings.Contains(prevMem, done.Name+"{")
+				if done.Kind == "Unload" && inMemBefore {
+					unl[done.Name] = true
+				}
+				if done.Kind == "Create" && opErr == nil && !done.Temp {
+					delete(unl, done.Name)
+				}
+				why := ""
+				memT := viewText(memView)
+				if rel == "RAbort" {
+					why = "a freshly started service does not start: " + relText
+				} else if cls != "" && (memT != prevMem || relText != prevRel) {
+					why = "the operation failed (" + cls + ") but the memory or disk view changed"
+				} else {
+					fpSeen := map[string]string{}
+					for _, a := range memView {
+						if a.Typ != 1 {
+							key := fmt.Sprintf("%d/%d", a.Typ, a.Seed)
+							if o, ok := fpSeen[key]; ok {
+								why = "wallets " + o + " and " + a.Name + " in memory share a fingerprint"
+							}
+							fpSeen[key] = a.Name
+						}
+					}
+					if why == "" && rel != "RAbort" {
+						// fresh view minus unloaded vs non-temporary memory
+						var a, b []string
+						for _, part := range strings.Split(strings.Trim(relText, "[]"), "} ") {
+							if part = strings.TrimSpace(part); part != "" && !unl[strings.SplitN(part, "{", 2)[0]] {
+								a = append(a, strings.TrimSuffix(part, "}"))
+							}
+						}
+						for _, w := range memView {
+							if !w.Temp {
+								b = append(b, strings.TrimSuffix(w.Text(), "}"))
+							}
+						}
+						if strings.Join(a, "|") != strings.Join(b, "|") {
+							why = "memory (non-temporary) and a freshly started service (minus unloaded wallets) differ"
+						}
+					}
+				}
+				if why != "" {
+					suspect = fmt.Sprintf("step %d, %s: %s; memory=%s fresh-start=%s", k, done.Text(), why, memT, relText)
+				}
+				prevMem, prevRel = memT, relText
+			}
 			opsDone = append(opsDone, done)
 			stepItems = append(stepItems, Tuple(done.Coq(), OptErr(cls), viewCoq(memView), rel))
 			stepTexts = append(stepTexts, fmt.Sprintf("%s -> err=%q mem=%s reload=%s", done.Text(), cls, viewText(memView), relText))
@@ -584,7 +637,7 @@ func run(args []string) error {
 		}
 		badTables = append(badTables, ab.bad...)
 		items = append(items, List(stepItems))
-		c := map[string]interface{}{"sequence": si, "length": len(opsDone), "history": strings.Join(stepTexts, " ;; ")}
+		c := map[string]interface{}{"sequence": si, "length": len(opsDone), "suspect_step": suspect, "history": strings.Join(stepTexts, " ;; ")}
 		cases = append(cases, c)
 		o.Count(strings.Join(stepTexts, ";"), true)
 		if len(samples) < 6 && (si < 2 || r.Intn(nseq/4+1) == 0) {
